@@ -14,6 +14,7 @@ type Gen struct {
 	Cons   []string
 	All    []string
 	Svcs   []string
+	queue  []Ev // operations already decided (the rest of a transaction)
 }
 
 func NewGen(seed int64) *Gen {
@@ -141,6 +142,34 @@ func (g *Gen) paramOp(st *State) Ev {
 
 // Next produces the next operation given the current abstract state
 func (g *Gen) Next(st *State) Ev {
+	if len(g.queue) > 0 {
+		e := g.queue[0]
+		g.queue = g.queue[1:]
+		return e
+	}
+	if g.chance(0.03) { // a transaction of several messages: all or nothing
+		g.queue = nil
+		for i := 0; i < 2+g.R.Intn(3); i++ {
+			for {
+				e := g.next1(st)
+				switch e.Name {
+				case "EndBlock", "SetParams", "ModCreate", "ModPause", "ModStart", "ModKill", "ModUpdate":
+					continue
+				}
+				g.queue = append(g.queue, e)
+				break
+			}
+		}
+		if g.chance(0.5) { // ... whose last message is bound to fail
+			g.queue = append(g.queue, Ev{Name: "RefundDeposit", Signer: "w1", Svc: "zz", Prov: "w1"})
+		}
+		g.queue = append(g.queue, Ev{Name: "TxEnd"})
+		return Ev{Name: "TxBegin"}
+	}
+	return g.next1(st)
+}
+
+func (g *Gen) next1(st *State) Ev {
 	r := g.R.Float64()
 	nb := len(st.Bind)
 	switch {
